@@ -311,8 +311,10 @@ class Simulator(EventProducer, SimulatorInterface, Generic[TIME]):
         initialize for a model has not yet been called"""
         return self._model
         
-    def initialize(self, model: ModelInterface, replication: ReplicationInterface):
-        """initialize the simulator with a replication for a model"""
+    def _check_initialize(self, model: ModelInterface, 
+                          replication: ReplicationInterface):
+        """The preconditions of initialize(). When one of them does not hold
+        a DSOLError is raised, and nothing has been changed."""
         if not isinstance(model, ModelInterface):
             raise DSOLError(f"model {model} not valid")
         if not hasattr(model, '_simulator'):
@@ -322,6 +324,10 @@ class Simulator(EventProducer, SimulatorInterface, Generic[TIME]):
             raise DSOLError(f"replication {replication} not valid")
         if self.is_starting_or_running():
             raise DSOLError("cannot initialize a running simulation")
+
+    def initialize(self, model: ModelInterface, replication: ReplicationInterface):
+        """initialize the simulator with a replication for a model"""
+        self._check_initialize(model, replication)
         if self.__worker is not None:
             self.cleanup()
         self.__worker = SimulatorWorkerThread(self.name, self)
@@ -614,9 +620,9 @@ class DEVSSimulator(Simulator[TIME], Generic[TIME]):
         self._eventlist: EventListInterface = EventListHeap()
     
     def initialize(self, model:ModelInterface, replication:ReplicationInterface):
-        # this check HAS to be done before clearing the eventlist
-        if self.is_starting_or_running():
-            raise DSOLError("cannot initialize a running simulation")
+        # the checks HAVE to be done before clearing the eventlist: a 
+        # refused initialize() leaves the pending events alone
+        self._check_initialize(model, replication)
         self._eventlist.clear()
         super().initialize(model, replication)
         # schedule warmup BEFORE events at warmup time
